@@ -5,6 +5,7 @@ import (
 	"github.com/AsaiYusuke/jsonpath"
 	"math"
 	"reflect"
+	"strings"
 
 	"pgregory.net/rapid"
 
@@ -196,6 +197,42 @@ func drawC10(rt *rapid.T) *Case {
 	return &Case{Path: gen.Render(p, gen.Canon).Text, AST: p, Doc: root}
 }
 
+// nilContainers copies a decoded document, writing every empty array/object as a nil slice/map.
+func nilContainers(v interface{}) interface{} { return copyContainers(v, true) }
+
+// nonNilContainers copies a value, writing every empty array/object as a non-nil empty one.
+func nonNilContainers(v interface{}) interface{} { return copyContainers(v, false) }
+
+func copyContainers(v interface{}, asNil bool) interface{} {
+	switch x := v.(type) {
+	case []interface{}:
+		if len(x) == 0 {
+			if asNil {
+				return []interface{}(nil)
+			}
+			return []interface{}{}
+		}
+		out := make([]interface{}, len(x))
+		for i, e := range x {
+			out[i] = copyContainers(e, asNil)
+		}
+		return out
+	case map[string]interface{}:
+		if len(x) == 0 {
+			if asNil {
+				return map[string]interface{}(nil)
+			}
+			return map[string]interface{}{}
+		}
+		out := make(map[string]interface{}, len(x))
+		for k, e := range x {
+			out[k] = copyContainers(e, asNil)
+		}
+		return out
+	}
+	return v
+}
+
 func jsonTypeOf(v interface{}) string {
 	switch v.(type) {
 	case nil:
@@ -251,6 +288,16 @@ func checkC10(c *Case, st *Stats) string {
 			}
 			if msg := c10EditAndEvaluateAgain(cc, ast, text, lib, st); msg != "" {
 				return msg
+			}
+			if strings.Contains(docText, "[]") || strings.Contains(docText, "{}") {
+				// the same document as a caller may build it by hand: its empty arrays and objects are nil
+				// slices and nil maps (still an array, still an object — never null)
+				nl := evalLibrary(cc, nilContainers(cc.Document()), false)
+				st.Eval(1)
+				st.Class("nil-slices-and-maps-as-empty-containers")
+				if nl.parseErr != nil || (nl.err == nil) != (lib.err == nil) || !reflect.DeepEqual(nonNilContainers(nl.got), nonNilContainers(lib.got)) {
+					return fmt.Sprintf("%q (UseNumber=%v): selects %s (%v) on the decoded document and %s (%v) on the same document with nil slices/maps as its empty containers", text, useNumber, JSONString(lib.got), lib.err, JSONString(nl.got), nl.err)
+				}
 			}
 			if len(text)%4 == 1 {
 				// a comparison is decided on the values, also when the results are handed out as Accessors
